@@ -213,3 +213,43 @@ func Harness_C07_sys_needs_root() {
 	verifAssert((in || att) == (lvl == auth.LevelRoot), "sys-admits-only-root")
 	verifReach("end")
 }
+
+// {set sub} to a p2p topic that is not loaded (hub's replyOfflineTopicSetSub): the stored requested mode stays
+// within JRWPA and keeps A, only the requester's own row changes, nobody's grant changes.
+func Harness_C07_offline_p2p_set_sub() {
+	fx := verifNewTopic(verifKindP2P, 2)
+	t := fx.topic
+	verifNotified = nil
+	actor := fx.uids[verifChoose("actor", 2)]
+	other := fx.uids[0]
+	if actor == other {
+		other = fx.uids[1]
+	}
+	sess := verifNewSession("sid-offline", actor, auth.LevelAuth, 16)
+	mode := (verifMode("reqMode") &^ types.ModeOwner).String()
+	before := map[types.Uid]types.Subscription{}
+	for _, u := range fx.uids {
+		before[u] = *fx.store.subs[verifSubKey(t.name, u)]
+	}
+	msg := &ClientComMessage{Id: "r1", AsUser: actor.UserId(), AuthLvl: int(auth.LevelAuth), Original: other.UserId(), RcptTo: t.name,
+		Timestamp: types.TimeNow(), sess: sess, init: true, MetaWhat: constMsgMetaSub,
+		Set: &MsgClientSet{Id: "r1", Topic: other.UserId(), MsgSetQuery: MsgSetQuery{Sub: &MsgSetSub{Mode: mode}}}}
+	replyOfflineTopicSetSub(sess, msg)
+	n := 0
+	for _, r := range verifDrainSend(sess) {
+		if r != nil && r.Ctrl != nil && r.Ctrl.Id == "r1" {
+			n++
+		}
+	}
+	verifAssert(n == 1, "offline-set-answered-exactly-once")
+	for _, u := range fx.uids {
+		sub := fx.store.subs[verifSubKey(t.name, u)]
+		verifAssert(sub.ModeGiven == before[u].ModeGiven, "offline-set-changes-no-grant")
+		if u != actor {
+			verifAssert(sub.ModeWant == before[u].ModeWant, "requested-mode-changed-only-by-its-user")
+		}
+		verifAssert(sub.ModeWant&^types.ModeCP2P == 0, "p2p-modes-within-JRWPA")
+		verifAssert(sub.ModeWant.IsApprover(), "p2p-modes-keep-approve")
+	}
+	verifReach("end")
+}
